@@ -1,32 +1,33 @@
 /* vocabulary for ?lsolve (SRC/?myblas2.c): rhs[0..ncol) := inv(unit-lower(M(0:ncol,0:ncol))) * rhs, M column-major with leading dimension ldm.
- * Inputs: in_ldm, in_ncol, in_M[MCAP]; rhs lives in its own object in_rhs[VCAP] (ALIAS == 0: sp_?trsv, ?gstrs, bmod1D/2D, column_bmod's
- * tempv) or in the SAME object as M behind the block (ALIAS == 1: p?gstrf_snode_bmod / column_bmod hand in &lusup[luptr] and &lusup[ufirst]).
- * The routine gets M = in_M + g_moff, rhs = RHSOBJ + g_roff; the ghost offsets put the extent the routine may touch at the head or at the
- * tail of the object, so an access below or beyond it leaves the object.
- * g_T[j] = j*ldm (column offsets, a table so that no clause multiplies two symbolic integers); g_p an arbitrary (universally chosen)
- * position of the rhs object, g_v0 its value on entry. */
+ * The harness runs the routine once for EVERY ncol in NLO..NMAX (concrete per case, so that every pointer of the unwound routine is concrete)
+ * with ldm = ncol + LDGAP, on symbolic contents.  M and rhs are objects of EXACTLY the extent the routine may touch
+ * (ALIAS == 0: g_Mobj has REND entries, g_robj has ncol entries -- sp_?trsv, ?gstrs, bmod1D/2D, column_bmod's tempv), so any access outside
+ * that extent leaves the object; or ONE object (ALIAS == 1: p?gstrf_snode_bmod / column_bmod hand in &lusup[luptr] and &lusup[ufirst],
+ * ufirst = luptr + nsupr*nsupc: rhs starts ncol*ldm entries behind M and ends the object).
+ * g_k an arbitrary (universally chosen) position of rhs, g_m of M; g_b[] = rhs on entry; g_ref[] = inv(unit-lower(M)) * g_b computed by the harness
+ * with the textbook double loop (VALS: exact small-integer entries, so every product and sum is exact in either summation order). */
 #define N in_ncol
 #define LD in_ldm
-#define TMAX (CAP * LDMAX)
-/* what ?lsolve may READ of M: entries M[1] .. M[(ncol-2)*ldm + ncol-1] (the last column of the block and M[0] are never needed) */
-#define REND (N >= 2 ? g_T[N >= 2 ? N - 2 : 0] + N : 0)
+/* what ?lsolve may READ of M: entries M[1] .. M[(ncol-2)*ldm + ncol-1] (M[0] and the last column of the block are never needed) */
+#define REND (N >= 2 ? (N - 2) * LD + N : 0)
 #if ALIAS
-#define RHSOBJ in_M
-#define RCAP MCAP
+#define MSIZE (N * LD)
 #else
-#define RHSOBJ in_rhs
-#define RCAP VCAP
+#define MSIZE REND
 #endif
-#define INSIDE(p) (g_roff <= (p) && (p) < g_roff + N)
+#define INSIDE(p) (0 <= (p) && (p) < N)
 #define ISNAN(v) ((v) != (v))
-/* same value, NaN counted as equal to NaN (complex: both parts) */
 #if CPLX
 #define POIS(v) (ISNAN((v).r) || ISNAN((v).i))
 #define SAME1(a,b) ((a) == (b) || (ISNAN(a) && ISNAN(b)))
 #define SAME(a,b) (SAME1((a).r, (b).r) && SAME1((a).i, (b).i))
+#define EQ(a,b) ((a).r == (b).r && (a).i == (b).i)
+#define SMALL1(v) ((v) == -1 || (v) == 0 || (v) == 1 || (v) == 2)
+#define SMALL(v) (SMALL1((v).r) && SMALL1((v).i))
 #else
 #define POIS(v) ISNAN(v)
 #define SAME(a,b) ((a) == (b) || (ISNAN(a) && ISNAN(b)))
+#define EQ(a,b) ((a) == (b))
+#define SMALL(v) ((v) == -1 || (v) == 0 || (v) == 1 || (v) == 2)
 #endif
-/* carried by every loop: positions outside rhs[0..ncol) and rhs[0] keep their value, a NaN inside stays */
-#define FRAME_INV ((!INSIDE(g_p) ==> SAME(RHSOBJ[g_p], g_v0)) && (N >= 1 ==> SAME(RHSOBJ[g_roff < RCAP ? g_roff : 0], g_r0)) && ((INSIDE(g_p) && POIS(g_v0)) ==> POIS(RHSOBJ[g_p])))
+#define KK (INSIDE(g_k) ? g_k : 0)
